@@ -8,18 +8,16 @@
     signed —, timeout, BlockManager callback, or a `vote` event for a vote that is in the soup); the
     votes it signs during the event are appended to the soup in signing order.  Loss, delay,
     duplication and reordering are all schedules of this relation.
-  * `sysInv`: the soup of every reachable state satisfies G0–G3 (from vstep_G0..G3, with exact timing)
-    and every Finalize effect of a correct validator has a commit quorum in the soup.
-  * `agreement_nocrash`: two Finalize effects of correct validators at one height name the same block.
+  * `ReachC P`: the same plus, for correct validators, `crashEvent` (death at any effect boundary of any
+    event, C02's crash model) and `restart` (Start on the WALs) — every restart has to satisfy `P`.
+  * `SysInv`: the soup of every state reachable under `ReachC RLS` satisfies G0–G3 (exact timing) and
+    every Finalize effect of a correct validator has a commit quorum in the soup.
+  * `agreement_partial` (crash / restart, under RestoreLockSound) and its corollary `agreement_nocrash`.
 -/
-import Goloop.Proofs.C01G3Step
-import Goloop.Proofs.C02Restart
+import Goloop.Proofs.C01Restart
 namespace Goloop.C01
 
 /-! ### the system -/
-
-def votesOf (ms : List Msg) : List VoteRec :=
-  ms.filterMap (fun m => match m with | .vote v => some v | _ => none)
 
 structure Sys where
   /-- every vote signed so far, by anybody, in signing order -/
@@ -42,41 +40,39 @@ inductive Reach (n : Nat) (byz : Nat → Bool) : Sys → Prop
   | event (sys : Sys) (i : Nat) (e : Event) : Reach n byz sys → byz i = false → e.noCrash →
       (∀ m, e = .vote m → m ∈ sys.soup) → Reach n byz (sys.step i e)
 
-/-! ### monotonicity of the invariants in the set of delivered votes -/
+/-- validator `i` starts event `e` and its process dies at effect boundary `cut` of the trace: what
+    follows `cut` never happened, `k` unsynced records of every WAL survive (C02's crash model) -/
+def Sys.crashStep (sys : Sys) (i : Nat) (e : Event) (cut k : Nat) : Sys :=
+  ⟨sys.soup ++ newVotes (sys.st i) (crash (vstep (sys.st i) e) cut k),
+   fun j => if j = i then crash (vstep (sys.st i) e) cut k else sys.st j⟩
 
-theorem h2_mono_L {L L' : List VoteRec} {s : S} (hL : ∀ x, x ∈ L → x ∈ L') (hh : H2 L s) : H2 L' s := by
-  refine ⟨?_, ?_⟩
-  · intro r t
-    refine ⟨(hh.hv r t).1, ?_⟩
-    intro e he
-    rcases (hh.hv r t).2 e he with h | h
-    · exact Or.inl (hL _ h)
-    · exact Or.inr h
-  · intro v b hv ht hval
-    exact quorumKnown_mono hL (fun _ h => h) (hh.g2 v b hv ht hval)
+/-- L-sys WITH crash and restart of correct validators.  `P` is the condition every restart has to
+    satisfy (`RLS` for `agreement_partial`; `fun _ => True` gives all executions).
+    * `crashEvent`: the process of validator `i` dies while handling event `e`, at ANY effect boundary
+      `cut` of `e` (`cut` = length of the trace before `e`: the crash hits before the first effect of
+      `e`, i.e. between events; `cut` ≥ length after `e`: after its last effect), any number `k` of
+      unsynced WAL records survives;
+    * `restart`: a stopped validator runs `Start` on its WALs (applyRoundWAL + applyLockWAL +
+      applyCommitWAL + dispatch).  `SignClosed`: its last crash did not fall between the WAL write of a
+      vote and handing that vote to the network (those two effect boundaries per vote are excluded). -/
+inductive ReachC (P : S → Prop) (n : Nat) (byz : Nat → Bool) : Sys → Prop
+  | init : ReachC P n byz ⟨[], fun i => start { n := n, me := i }⟩
+  | byzVote (sys : Sys) (v : VoteRec) : ReachC P n byz sys → byz v.signer = true →
+      ReachC P n byz ⟨sys.soup ++ [v], sys.st⟩
+  | event (sys : Sys) (i : Nat) (e : Event) : ReachC P n byz sys → byz i = false → e.noCrash →
+      (∀ m, e = .vote m → m ∈ sys.soup) → ReachC P n byz (sys.step i e)
+  | crashEvent (sys : Sys) (i : Nat) (e : Event) (cut k : Nat) : ReachC P n byz sys → byz i = false →
+      e.noCrash → (∀ m, e = .vote m → m ∈ sys.soup) → (sys.st i).eff.length ≤ cut →
+      ReachC P n byz (sys.crashStep i e cut k)
+  | restart (sys : Sys) (i : Nat) : ReachC P n byz sys → byz i = false → (sys.st i).started = false →
+      SignClosed (sys.st i).eff → P (sys.st i) → ReachC P n byz (sys.step i .start)
 
-theorem h3_mono_L {L L' : List VoteRec} {base : List Msg} {R : Nat} {s : S} (hL : ∀ x, x ∈ L → x ∈ L')
-    (hh : H3 L base R s) : H3 L' base R s := by
-  refine ⟨hh.pre, ?_, hh.imp, ?_, ?_, ?_, ?_⟩
-  · intro hs v b hv ht hval hht
-    rcases hh.lock hs v b hv ht hval hht with h | ⟨r'', y, a1, a2, a3, a4⟩
-    · exact Or.inl h
-    · exact Or.inr ⟨r'', y, a1, a2, a3, quorumKnown_mono hL (fun _ h => h) a4⟩
-  · intro hs h8
-    obtain ⟨r, b, h1, h2⟩ := hh.com hs h8
-    exact ⟨r, b, h1, quorumKnown_mono hL (fun _ h => h) h2⟩
-  · intro pre w post hd ht v b hv hvt hval hht hr hne
-    obtain ⟨r'', y, a1, a2, a3, a4⟩ := hh.g3 pre w post hd ht v b hv hvt hval hht hr hne
-    exact ⟨r'', y, a1, a2, a3, quorumKnown_mono hL (fun _ h => h) a4⟩
-  · intro pre v post b hd ht hval
-    exact quorumKnown_mono hL (fun _ h => h) (hh.g2 pre v post b hd ht hval)
-  · intro h b hm
-    obtain ⟨r, hq⟩ := hh.fin h b hm
-    exact ⟨r, quorumKnown_mono hL (fun _ h => h) hq⟩
-
-theorem a3_mono_L {L L' : List VoteRec} {base : List Msg} {s : S} (hL : ∀ x, x ∈ L → x ∈ L')
-    (ha : A3 L base s) : A3 L' base s :=
-  ⟨ha.core, h2_mono_L hL ha.h2, h3_mono_L hL ha.h3⟩
+theorem reachC_of_reach {P : S → Prop} {n : Nat} {byz : Nat → Bool} {sys : Sys} (h : Reach n byz sys) :
+    ReachC P n byz sys := by
+  induction h with
+  | init => exact ReachC.init
+  | byzVote sys v _ hb ih => exact ReachC.byzVote sys v ih hb
+  | event sys i e _ hbi hn hl ih => exact ReachC.event sys i e ih hbi hn hl
 
 /-! ### the freshly started machine has signed nothing -/
 
@@ -109,17 +105,6 @@ theorem soupQ_of_known {L : List VoteRec} {n : Nat} {sent : List Msg} {A : List 
     (by intro x hx; simp only [decide_eq_true_eq] at hx ⊢; exact hk _ hx)
   omega
 
-theorem mem_votesOf {ms : List Msg} {v : VoteRec} : v ∈ votesOf ms ↔ Msg.vote v ∈ ms := by
-  unfold votesOf
-  rw [List.mem_filterMap]
-  constructor
-  · rintro ⟨m, hm, he⟩
-    cases m with
-    | proposal => simp at he
-    | vote w => simp at he; subst he; exact hm
-  · intro h
-    exact ⟨_, h, rfl⟩
-
 /-- a vote in the middle of `votesOf ms` splits `ms` accordingly -/
 theorem votesOf_eq_append_cons {ms : List Msg} {N1 B : List VoteRec} {v : VoteRec}
     (h : votesOf ms = N1 ++ v :: B) :
@@ -137,15 +122,17 @@ theorem votesOf_eq_append_cons {ms : List Msg} {N1 B : List VoteRec} {v : VoteRe
     refine ⟨l1 ++ l3, l4, by simp, ?_⟩
     unfold votesOf
     rw [List.filterMap_append, h1]
-    have : List.filterMap (fun m => match m with | .vote v => some v | _ => none) l3 = [] := by
+    have h0 : votesOf l3 = [] := by
+      unfold votesOf
       rw [List.filterMap_eq_nil_iff]
       exact h3
-    rw [this]; simp
+    unfold votesOf at h0
+    rw [h0]; simp
 
 /-! ### the system invariant -/
 
 structure SysInv (n : Nat) (byz : Nat → Bool) (sys : Sys) : Prop where
-  mach : ∀ i, byz i = false → A3 sys.soup [] (sys.st i) ∧ Inv i n (sys.st i)
+  mach : ∀ i, byz i = false → M3 sys.soup i n (sys.st i)
   /-- unforgeability: a vote in the soup carrying a correct signer's name was signed by that machine -/
   own : ∀ x, x ∈ sys.soup → byz x.signer = false → Msg.vote x ∈ sentOf (sys.st x.signer).eff
   sub : ∀ i, byz i = false → ∀ x, Msg.vote x ∈ sentOf (sys.st i).eff → x ∈ sys.soup
@@ -163,7 +150,7 @@ theorem inv_start (n i : Nat) : Inv i n (start { n := n, me := i }) :=
 theorem sysInv_init (n : Nat) (byz : Nat → Bool) :
     SysInv n byz ⟨[], fun i => start { n := n, me := i }⟩ := by
   refine ⟨?_, ?_, ?_, List.Pairwise.nil, ?_, ?_⟩
-  · intro i _; exact ⟨a3_start_fresh n i, inv_start n i⟩
+  · intro i _; exact m3_of_a3 (inv_start n i) (a3_start_fresh n i)
   · intro x hx; cases hx
   · intro i _ x hx
     simp only [start_fresh_eff, sentOf] at hx
@@ -176,7 +163,7 @@ theorem sysInv_byz (n : Nat) (byz : Nat → Bool) (sys : Sys) (v : VoteRec) (hi 
   have hsub : ∀ x, x ∈ sys.soup → x ∈ sys.soup ++ [v] := fun x hx => List.mem_append_left _ hx
   refine ⟨?_, ?_, ?_, ?_, ?_, ?_⟩
   · intro i hbi
-    exact ⟨a3_mono_L hsub (hi.mach i hbi).1, (hi.mach i hbi).2⟩
+    exact m3_mono_L hsub (hi.mach i hbi)
   · intro x hx hbx
     rcases List.mem_append.mp hx with h | h
     · exact hi.own x h hbx
@@ -216,23 +203,19 @@ theorem append_eq_append_cons_cases {α : Type} {l1 l2 A B : List α} {v : α} (
       obtain ⟨rfl, rfl⟩ := h2
       exact ⟨cs, h1, rfl⟩
 
-theorem sysInv_event (n : Nat) (byz : Nat → Bool) (sys : Sys) (i : Nat) (e : Event) (hi : SysInv n byz sys)
-    (hbi : byz i = false) (hn : e.noCrash) (hl : ∀ m, e = .vote m → m ∈ sys.soup) :
-    SysInv n byz (sys.step i e) := by
-  obtain ⟨a0, inv0⟩ := hi.mach i hbi
-  have a1 := a3_rebase (sentOf (sys.st i).eff) (List.prefix_refl _) a0
-  have a2 := vstep_a3 (sys.st i) e hn hl a1
-  have inv2 : Inv i n (vstep (sys.st i) e) := vstep_inv _ e inv0
-  obtain ⟨newM, hnew⟩ := a2.h3.pre
-  have hnv : newVotes (sys.st i) (vstep (sys.st i) e) = votesOf newM := by
+/-- one machine moves to `s'` (by an event, a crash, a restart): it kept its per-machine invariant and
+    only appended to what it has signed -/
+theorem sysInv_update (n : Nat) (byz : Nat → Bool) (sys : Sys) (i : Nat) (s' : S) (hi : SysInv n byz sys)
+    (hbi : byz i = false) (hm2 : M3 sys.soup i n s') (hpre : sentOf (sys.st i).eff <+: sentOf s'.eff) :
+    SysInv n byz ⟨sys.soup ++ newVotes (sys.st i) s', fun j => if j = i then s' else sys.st j⟩ := by
+  have inv2 : Inv i n s' := hm2.inv
+  obtain ⟨newM, hnew⟩ := hpre
+  have hnv : newVotes (sys.st i) s' = votesOf newM := by
     unfold newVotes; rw [← hnew, List.drop_left]
-  unfold Sys.step
   rw [hnv]
-  generalize vstep (sys.st i) e = s' at a2 inv2 hnew
   have hsent : sentOf s'.eff = sentOf (sys.st i).eff ++ newM := hnew.symm
   have hsig : ∀ x, Msg.vote x ∈ sentOf s'.eff → x.signer = i := fun x hx => (inv2.tr.sg _ hx).1
   have hinc : (sentOf (sys.st i).eff ++ newM).Pairwise msgLt := by rw [← hsent]; exact inv2.inc
-  have hnn : s'.n = n := inv2.hn
   have hsub : ∀ x, x ∈ sys.soup → x ∈ sys.soup ++ votesOf newM := fun x hx => List.mem_append_left _ hx
   have hknown : ∀ (M1 : List Msg) (x : VoteRec), (∀ m, m ∈ M1 → m ∈ newM) →
       Known sys.soup (sentOf (sys.st i).eff ++ M1) x → x ∈ sys.soup ++ votesOf M1 := by
@@ -247,9 +230,9 @@ theorem sysInv_event (n : Nat) (byz : Nat → Bool) (sys : Sys) (i : Nat) (e : E
     by_cases hj : j = i
     · subst hj
       simp only [if_true]
-      exact ⟨a3_mono_L hsub (a3_rebase [] List.nil_prefix a2), inv2⟩
+      exact m3_mono_L hsub hm2
     · simp only [if_neg hj]
-      exact ⟨a3_mono_L hsub (hi.mach j hbj).1, (hi.mach j hbj).2⟩
+      exact m3_mono_L hsub (hi.mach j hbj)
   · intro x hx hbx
     simp only []
     rcases List.mem_append.mp hx with h | h
@@ -293,8 +276,7 @@ theorem sysInv_event (n : Nat) (byz : Nat → Bool) (sys : Sys) (i : Nat) (e : E
     rcases append_eq_append_cons_cases hd' with ⟨B', h1, _⟩ | ⟨N1, h1, h2⟩
     · exact hi.g2 A v B' b h1 hbv ht hval
     · obtain ⟨M1, M2, hM, hN⟩ := votesOf_eq_append_cons h2
-      have hq := a2.h3.g2 (sentOf (sys.st i).eff ++ M1) v M2 b (by rw [hsent, hM]; simp) ht hval
-      rw [hnn] at hq
+      have hq := hm2.trf.g2 (sentOf (sys.st i).eff ++ M1) v M2 b (by rw [hsent, hM]; simp) ht hval
       rw [h1, ← hN]
       exact soupQ_of_known (fun x hk => hknown M1 x (by intro m hm; rw [hM]; exact List.mem_append_left _ hm) hk) hq
   · intro A w B hd hbw ht v b hv hs hvt hval hht hr hne
@@ -313,18 +295,45 @@ theorem sysInv_event (n : Nat) (byz : Nat → Bool) (sys : Sys) (i : Nat) (e : E
         · rw [← hN] at h
           exact List.mem_append_right _ (mem_votesOf.mp h)
       obtain ⟨r'', y, c1, c2, c3, c4⟩ :=
-        a2.h3.g3 (sentOf (sys.st i).eff ++ M1) w M2 (by rw [hsent, hM]; simp) ht v b hvm hvt hval hht hr hne
-      rw [hnn] at c4
+        hm2.trf.g3 (sentOf (sys.st i).eff ++ M1) w M2 (by rw [hsent, hM]; simp) ht v b hvm hvt hval hht hr hne
       refine ⟨r'', y, c1, c2, c3, ?_⟩
       rw [h1, ← hN]
       exact soupQ_of_known (fun x hk => hknown M1 x (by intro m hm; rw [hM]; exact List.mem_append_left _ hm) hk) c4
 
-theorem reach_sysInv (n : Nat) (byz : Nat → Bool) (sys : Sys) (hr : Reach n byz sys) : SysInv n byz sys := by
+theorem sysInv_event (n : Nat) (byz : Nat → Bool) (sys : Sys) (i : Nat) (e : Event) (hi : SysInv n byz sys)
+    (hbi : byz i = false) (hn : e.noCrash) (hl : ∀ m, e = .vote m → m ∈ sys.soup) :
+    SysInv n byz (sys.step i e) := by
+  obtain ⟨h1, h2⟩ := m3_event (sys.st i) e hn hl (hi.mach i hbi)
+  exact sysInv_update n byz sys i _ hi hbi h1 (sentOf_prefix h2)
+
+theorem sysInv_crashEvent (n : Nat) (byz : Nat → Bool) (sys : Sys) (i : Nat) (e : Event) (cut k : Nat)
+    (hi : SysInv n byz sys) (hbi : byz i = false) (hn : e.noCrash) (hl : ∀ m, e = .vote m → m ∈ sys.soup)
+    (hp : (sys.st i).eff.length ≤ cut) :
+    SysInv n byz (sys.crashStep i e cut k) := by
+  obtain ⟨h1, h2⟩ := m3_event (sys.st i) e hn hl (hi.mach i hbi)
+  refine sysInv_update n byz sys i _ hi hbi (m3_crash _ cut k h1) ?_
+  show sentOf (sys.st i).eff <+: sentOf ((vstep (sys.st i) e).eff.take cut ++ [.crash k])
+  rw [sentOf_nonsend _ _ (by intro m; simp)]
+  apply sentOf_prefix
+  exact List.prefix_take_iff.mpr ⟨h2, hp⟩
+
+theorem sysInv_restart (n : Nat) (byz : Nat → Bool) (sys : Sys) (i : Nat) (hi : SysInv n byz sys)
+    (hbi : byz i = false) (hns : (sys.st i).started = false) (hsc : SignClosed (sys.st i).eff)
+    (hr : RLS (sys.st i)) : SysInv n byz (sys.step i .start) := by
+  obtain ⟨h1, h2⟩ := m3_start (sys.st i) hns hsc hr (hi.mach i hbi)
+  exact sysInv_update n byz sys i _ hi hbi h1 (sentOf_prefix h2)
+
+theorem reachC_sysInv (n : Nat) (byz : Nat → Bool) (sys : Sys) (hr : ReachC RLS n byz sys) :
+    SysInv n byz sys := by
   induction hr with
   | init => exact sysInv_init n byz
   | byzVote sys v _ hb ih => exact sysInv_byz n byz sys v ih hb
   | event sys i e _ hbi hn hl ih => exact sysInv_event n byz sys i e ih hbi hn hl
+  | crashEvent sys i e cut k _ hbi hn hl hp ih => exact sysInv_crashEvent n byz sys i e cut k ih hbi hn hl hp
+  | restart sys i _ hbi hns hsc hP ih => exact sysInv_restart n byz sys i ih hbi hns hsc hP
 
+theorem reach_sysInv (n : Nat) (byz : Nat → Bool) (sys : Sys) (hr : Reach n byz sys) : SysInv n byz sys :=
+  reachC_sysInv n byz sys (reachC_of_reach hr)
 
 /-! ### from the soup of vote records to the abstract one-height history -/
 
@@ -425,7 +434,7 @@ theorem guarantees_of_sysInv (n : Nat) (byz : Nat → Bool) (sys : Sys) (hi : Sy
     rw [← hsg'] at oy
     have hty' : x.typ = y.typ := hty
     have hrd' : x.round = y.round := hrd
-    have := pairwise_msgLt_unique (hi.mach x.signer hb').1.core.inc ox oy
+    have := pairwise_msgLt_unique (hi.mach x.signer hb').inv.inc ox oy
       (by unfold voteKey; rw [hxh, hyh, hrd', hty'])
     rw [this]
   · -- G2
@@ -463,22 +472,28 @@ theorem guarantees_of_sysInv (n : Nat) (byz : Nat → Bool) (sys : Sys) (hi : Sy
 theorem commitQ_of_finalize (n : Nat) (byz : Nat → Bool) (sys : Sys) (hi : SysInv n byz sys)
     (i : Nat) (hbi : byz i = false) (h : Nat) (b : Blk) (hf : (h, b) ∈ finalizedOf (sys.st i).eff) :
     ∃ r, commitQ n (projH h sys.soup) r b := by
-  obtain ⟨r, hq⟩ := (hi.mach i hbi).1.h3.fin h b hf
-  rw [(hi.mach i hbi).2.hn] at hq
+  obtain ⟨pre, post, hd⟩ := mem_finalizedOf hf
+  obtain ⟨r, hq⟩ := (hi.mach i hbi).trf.tr.fin pre h b post hd
   refine ⟨r, over23_of_soupQ (soupQ_of_known ?_ hq)⟩
   intro x hk
   rcases hk with hk | hk
   · exact hk
-  · exact hi.sub i hbi x hk
+  · exact hi.sub i hbi x (by rw [hd, sentOf_append]; exact List.mem_append_left _ hk)
+
+/-- **Agreement with crash / restart, under RestoreLockSound.** -/
+theorem agreement_partial (n : Nat) (byz : Nat → Bool) (hb : fewByz n byz) (sys : Sys)
+    (hr : ReachC RLS n byz sys) (i j : Nat) (hi : byz i = false) (hj : byz j = false) (h : Nat) (b b' : Blk)
+    (h1 : (h, b) ∈ finalizedOf (sys.st i).eff) (h2 : (h, b') ∈ finalizedOf (sys.st j).eff) : b = b' := by
+  have inv := reachC_sysInv n byz sys hr
+  obtain ⟨r1, c1⟩ := commitQ_of_finalize n byz sys inv i hi h b h1
+  obtain ⟨r2, c2⟩ := commitQ_of_finalize n byz sys inv j hj h b' h2
+  exact agreement_abs n byz (projH h sys.soup) hb (guarantees_of_sysInv n byz sys inv h) r1 b r2 b' c1 c2
 
 /-- **Agreement, no crash.** -/
 theorem agreement_nocrash (n : Nat) (byz : Nat → Bool) (hb : fewByz n byz) (sys : Sys)
     (hr : Reach n byz sys) (i j : Nat) (hi : byz i = false) (hj : byz j = false) (h : Nat) (b b' : Blk)
-    (h1 : (h, b) ∈ finalizedOf (sys.st i).eff) (h2 : (h, b') ∈ finalizedOf (sys.st j).eff) : b = b' := by
-  have inv := reach_sysInv n byz sys hr
-  obtain ⟨r1, c1⟩ := commitQ_of_finalize n byz sys inv i hi h b h1
-  obtain ⟨r2, c2⟩ := commitQ_of_finalize n byz sys inv j hj h b' h2
-  exact agreement_abs n byz (projH h sys.soup) hb (guarantees_of_sysInv n byz sys inv h) r1 b r2 b' c1 c2
+    (h1 : (h, b) ∈ finalizedOf (sys.st i).eff) (h2 : (h, b') ∈ finalizedOf (sys.st j).eff) : b = b' :=
+  agreement_partial n byz hb sys (reachC_of_reach hr) i j hi hj h b b' h1 h2
 
 /-! ### concrete system histories (used for the non-vacuity examples) -/
 
@@ -537,41 +552,85 @@ theorem reach_run (n : Nat) (byz : Nat → Bool) (sys : Sys) (steps : List Step)
       subst hm
       simpa using h.2
 
-/-! ### restart: the Start dispatch and everything after it keep the invariants, PROVIDED the WAL
-    replay (applyRoundWAL + applyLockWAL + applyCommitWAL) restored a sound state -/
+/-! ### concrete histories with crash and restart -/
 
-/-- what the WAL replay would have to guarantee (it does NOT for the unchanged code: finding F1).
-    `H2`: every vote put back into the height vote set is a vote the machine knows (delivered or signed by
-    itself); `H3`: in particular `LockInv` = RestoreLockSound — every own non-nil precommit (r, b) of the
-    current height is covered by the restored lock (lockedBlock = b, lockedRound ≥ r) or by a known
-    unlocking polka — plus the lock-rule / polka-rule / Finalize-rule facts about the surviving trace. -/
-def RestartSound (L : List VoteRec) (s : S) : Prop :=
-  H2 L (replayed s) ∧ H3 L [] (replayed s).round (replayed s)
+inductive StepC where
+  | byz (v : VoteRec)
+  | ev (i : Nat) (e : Event)
+  | crashEv (i : Nat) (e : Event) (cut k : Nat)
+  | restart (i : Nat)
 
-theorem a3_start_of_replayed {me n : Nat} {L : List VoteRec} (s : S) (hi : Inv me n s)
-    (hns : s.started = false) (hR : RestartSound L s) : A3 L [] (start s) := by
-  rw [start_eq s hns]
-  have a : A3 L [] (replayed s) := ⟨(replayed_spec s hi).1, hR.1, hR.2⟩
-  generalize replayed s = s2 at a ⊢
-  have hp : ∀ x, A3 L [] x → A3 L [] (enterPropose fuel0 x) := fun x ax =>
-    ⟨(ih_all _).enterPropose x ax.core, (ih2_all L _).enterPropose x ax.h2, (ih3_all L [] _).enterPropose x ax⟩
-  simp only []
-  split
-  · exact hp _ (a3_rfs _ _ (by decide) (by decide) (by decide) a)
-  split
-  · exact hp _ a
-  split
-  · exact ⟨(ih_all _).enterPrevote _ a.core, (ih2_all L _).enterPrevote _ a.h2, (ih3_all L [] _).enterPrevote _ a⟩
-  split
-  · split
-    · exact ⟨(ih_all _).enterPrevoteWait _ a.core, (ih2_all L _).enterPrevoteWait _ a.h2,
-        (ih3_all L [] _).enterPrevoteWait _ a⟩
-    · exact a
-  split
-  · split
-    · exact ⟨(ih_all _).enterPrecommitWait _ a.core, (ih2_all L _).enterPrecommitWait _ a.h2,
-        (ih3_all L [] _).enterPrecommitWait _ a⟩
-    · exact a
-  · exact a
+def Sys.nextC (sys : Sys) : StepC → Sys
+  | .byz v => ⟨sys.soup ++ [v], sys.st⟩
+  | .ev i e => sys.step i e
+  | .crashEv i e cut k => sys.crashStep i e cut k
+  | .restart i => sys.step i .start
+
+def Sys.runC (sys : Sys) : List StepC → Sys
+  | [] => sys
+  | st :: t => Sys.runC (sys.nextC st) t
+
+def signClosedB (eff : List Eff) : Bool :=
+  eff.all (fun e => match e with
+    | .write .round (.msg (.vote v)) => decide (Msg.vote v ∈ sentOf eff)
+    | _ => true)
+
+theorem signClosed_of_B {eff : List Eff} (h : signClosedB eff = true) : SignClosed eff := by
+  intro v hv
+  unfold signClosedB at h
+  rw [List.all_eq_true] at h
+  have := h _ hv
+  simpa using this
+
+def evOk (byz : Nat → Bool) (sys : Sys) (i : Nat) (e : Event) : Bool :=
+  !byz i && e.noCrashB &&
+    (match e with
+     | .vote m => decide (m ∈ sys.soup)
+     | _ => true)
+
+theorem evOk_spec {byz : Nat → Bool} {sys : Sys} {i : Nat} {e : Event} (h : evOk byz sys i e = true) :
+    byz i = false ∧ e.noCrash ∧ ∀ m, e = .vote m → m ∈ sys.soup := by
+  unfold evOk at h
+  simp only [Bool.and_eq_true, Bool.not_eq_true'] at h
+  refine ⟨h.1.1, noCrash_of_B h.1.2, ?_⟩
+  intro m hm
+  subst hm
+  simpa using h.2
+
+def StepC.ok (byz : Nat → Bool) (sys : Sys) : StepC → Bool
+  | .byz v => byz v.signer
+  | .ev i e => evOk byz sys i e
+  | .crashEv i e cut _ => evOk byz sys i e && decide ((sys.st i).eff.length ≤ cut)
+  | .restart i => !byz i && !(sys.st i).started && signClosedB (sys.st i).eff && decide (RLS (sys.st i))
+
+def Sys.runOkC (byz : Nat → Bool) (sys : Sys) : List StepC → Bool
+  | [] => true
+  | st :: t => st.ok byz sys && Sys.runOkC byz (sys.nextC st) t
+
+theorem reachC_run (n : Nat) (byz : Nat → Bool) (sys : Sys) (steps : List StepC) (hr : ReachC RLS n byz sys)
+    (hok : sys.runOkC byz steps = true) : ReachC RLS n byz (sys.runC steps) := by
+  induction steps generalizing sys with
+  | nil => exact hr
+  | cons st t ih =>
+    unfold Sys.runOkC at hok
+    simp only [Bool.and_eq_true] at hok
+    unfold Sys.runC
+    apply ih _ _ hok.2
+    cases st with
+    | byz v => exact ReachC.byzVote sys v hr hok.1
+    | ev i e =>
+      obtain ⟨h1, h2, h3⟩ := evOk_spec hok.1
+      exact ReachC.event sys i e hr h1 h2 h3
+    | crashEv i e cut k =>
+      have h := hok.1
+      unfold StepC.ok at h
+      simp only [Bool.and_eq_true, decide_eq_true_eq] at h
+      obtain ⟨h1, h2, h3⟩ := evOk_spec h.1
+      exact ReachC.crashEvent sys i e cut k hr h1 h2 h3 h.2
+    | restart i =>
+      have h := hok.1
+      unfold StepC.ok at h
+      simp only [Bool.and_eq_true, Bool.not_eq_true', decide_eq_true_eq] at h
+      exact ReachC.restart sys i hr h.1.1.1 h.1.1.2 (signClosed_of_B h.1.2) h.2
 
 end Goloop.C01
